@@ -97,15 +97,12 @@ func (k *checker) mustCommit(a attempt, before snap) (must, mustNot bool) {
 	case scriptComplete:
 		return valid, !valid
 	case scriptCloseAfterSig:
-		if a.Kind == kindRoots { // single round: nothing is written after the request
-			return valid, !valid
-		}
-		return false, !valid // the host may or may not have read the signature
-	case scriptBadSignature:
-		return false, true
+		// the signature was written before the stream was closed and the mux delivers
+		// frames in order: the host has everything it needs and commits
+		return valid, !valid
 	case scriptCloseAfterReq:
-		if a.Kind == kindRoots { // the request carries the signature: the host may commit
-			return false, !valid
+		if a.Kind == kindRoots { // single round: the request carries the renter's signature
+			return valid, !valid
 		}
 		return false, true
 	default:
@@ -424,14 +421,14 @@ func runC09(c *hx.Ctx) {
 	}
 
 	r := c.R.Fork()
-	coqBudget := c.Scale(1900, 30000)
+	coqBudget := c.Scale(9000, 60000)
 
 	// (1) every contract size, every index list (any order, duplicates) through the renter API
 	for n := 0; n <= maxSize; n++ {
 		count := 0
 		allLists(n, n, func(idx []uint64) {
 			count++
-			toCoq := n <= 4 || (n == 5 && count%5 == 0) || (n == 6 && count%40 == 0)
+			toCoq := n <= 5 || (n == 6 && count%40 == 0)
 			k.ensure(seqInts(n))
 			k.attempt(attempt{Kind: kindFreeClient, Idx: idx}, toCoq, "exhaustive-client-free")
 		})
@@ -531,15 +528,16 @@ func runC09(c *hx.Ctx) {
 	res.Explored = map[string]any{"max_contract_size_client_free": maxSize, "max_contract_size_raw_any_order": rawSize, "pool_sectors": len(e.pool)}
 
 	// (6) random sequences up to 64 sectors
-	nseq := c.Scale(12, 200)
+	nseq := c.Scale(60, 600)
 	for s := 0; s < nseq; s++ {
 		sr := c.R.Fork()
 		k.ensure(nil)
 		steps := 20 + sr.Intn(30)
+		target := []int{6, 16, 40, 64}[sr.Intn(4)]
 		var trace []string
 		for i := 0; i < steps; i++ {
 			st := e.snapshot()
-			a := randomAttempt(sr, len(st.roots), len(e.pool))
+			a := randomAttempt(sr, len(st.roots), len(e.pool), target)
 			trace = append(trace, a.String())
 			k.attempt(a, len(k.cases) < coqBudget, "random")
 		}
@@ -556,14 +554,20 @@ func runC09(c *hx.Ctx) {
 	_ = strings.Join
 }
 
-func randomAttempt(r *rng.R, size, pool int) attempt {
+// randomAttempt draws the next attempt of a random sequence; target is the contract size the
+// sequence hovers around.
+func randomAttempt(r *rng.R, size, pool, target int) attempt {
 	a := attempt{BadSig: r.Intn(4)}
 	if r.Intn(10) < 3 {
 		a.Script = 1 + r.Intn(5)
 	}
 	p := r.Intn(100)
+	freeBias := 45
+	if size < target {
+		freeBias = 15
+	}
 	switch {
-	case size >= 60 || (size > 0 && p < 35):
+	case size >= 60 || (size > 0 && p < freeBias):
 		a.Kind = kindFreeClient
 		maxLen := min(size+1, 9)
 		if size >= 60 {
@@ -590,8 +594,8 @@ func randomAttempt(r *rng.R, size, pool int) attempt {
 	case p < 80 || size == 0:
 		a.Kind = kindAppend
 		n := 1 + r.Intn(6)
-		if size < 20 && r.Intn(3) == 0 {
-			n += r.Intn(12)
+		if size < target && r.Intn(2) == 0 {
+			n += r.Intn(14)
 		}
 		n = min(n, 64-size)
 		if n <= 0 {
